@@ -40,7 +40,8 @@ class Scenario:
 
 class Contract:
     def __init__(self, func, serves, scenarios, raises=(), returns=None, updates=None, ensures=(), exc_ensures=(),
-                 loops=None, policy=None, requires=(), note="", native=None, ghost_params=(), fresh_result=None, decreases=None, key=None):
+                 loops=None, policy=None, requires=(), note="", native=None, ghost_params=(), fresh_result=None, decreases=None, key=None, partial_ok=False):
+        self.partial_ok = partial_ok  # the body leaves the deductive subset after a prefix: only the prefix is verified (rest: bounded)
         self.key = key or func
         self.decreases = decreases
         self.fresh_result = fresh_result  # 'str'|'int'|'real': non-functional contract, callers get a fresh value + ensures
@@ -483,6 +484,17 @@ def verify_scenario(world: World, ct: Contract, sc: Scenario, budget_ms=400, max
         except Unsupported as u:
             r.outcome = "unsupported"
             r.detail = str(u)
+            if ct.partial_ok:
+                # prefix completeness: where the verifier's reach ends, none of the prefix rejection conditions holds
+                try:
+                    r.outcome = "beyond-reach"
+                    for exc, cond in ct.raises:
+                        if cond is not None:
+                            path.check(f"{ct.func}/prefix-complete[{exc}]", z3.Not(clause_truth(ex, cond, cenv, fv.mi)),
+                                       {"kind": "raises-complete", "text": f"past the verified prefix implies not ({cond})"})
+                except (Unsupported, PyRaise) as u2:
+                    r.outcome = "unsupported"
+                    r.detail = f"{u}; and prefix condition not evaluable: {u2}"
         except PyRaise as pr:  # raised while building arguments / evaluating clauses
             r.outcome = "unsupported"
             r.detail = f"exception {pr.exc.cls} outside the function body (contract evaluation)"
